@@ -219,6 +219,13 @@ class GoExec:
 
     def const_val(self, e):
         ck = e.get('ck')
+        if ck in ('Int', 'Float') and e.get('t') is not None and self.tt.is_float(e['t']):
+            num = e['cv']
+            if '/' in num:
+                a, b = num.split('/'); val = int(a) / int(b)
+            else:
+                val = float(num)
+            return z3.FPVal(val, F32 if self.tt.basic(e['t']) == 'float32' else F64)
         if ck == 'Int':
             v = int(e['cv'])
             if self.mode == 'bv':
